@@ -34,6 +34,7 @@ theorem tie_reCalls :
 /-- the counter on expressions with everything it has to skip: escapes, classes with `]` and `(` inside,
 non-capturing and named groups -/
 example : countGroups "a\\(b[(](?:c)(?P<n>d)(?i)[]()](e(f))".toList = 3 := by decide
+example : countGroups "[[:alpha:](](x)[[:x](y)".toList = 2 := by decide
 
 /-! ## ParseVersion -/
 
@@ -106,7 +107,7 @@ theorem parseVersionG_of_guards (gs : GuardList)
                   · refine idx_bind_ne_oob (by omega) fun _ => ?_
                     split <;> simp
 
-theorem admits_eq_zero (how : String) (h : how ≠ "then") : Admits (some ⟨.eq, 0, how⟩) 1 := by
+theorem guard_eq_zero (how : String) (h : how ≠ "then") : Admits (some ⟨.eq, 0, how⟩) 1 := by
   intro len hp
   simp [passes, h, Op.holds] at hp
   omega
@@ -117,8 +118,8 @@ theorem parseVersionG_no_oob (all : List (List Text)) :
     parseVersionG Generated.lenGuards_ParseVersion all ≠ .oob := by
   obtain ⟨g0, g1, g4⟩ := versionGuards
   refine parseVersionG_of_guards _ ?_ ?_ ?_ all
-  · rw [g0]; exact admits_eq_zero _ (by decide)
-  · rw [g1]; exact admits_ne 14 _ (by decide)
+  · rw [g0]; exact guard_eq_zero _ (by decide)
+  · rw [g1]; exact guard_ne 14 _ (by decide)
   · rw [g4]; intro len he; simp [enters, Op.holds] at he; omega
 
 /-- the check does not make the function reject every match: the length it demands IS the length the
@@ -155,7 +156,7 @@ theorem resolvePinG_no_oob (all : List (List Text))
   split
   · simp
   · next hp =>
-    have hl0 : 1 ≤ all.length := admits_eq_zero "return" (by decide) _ (by simpa using hp)
+    have hl0 : 1 ≤ all.length := guard_eq_zero "return" (by decide) _ (by simpa using hp)
     rw [idx_ok (show 0 < all.length by omega)]
     simp only [Res.bind]
     have hm := h all[0] (List.getElem_mem _)
@@ -189,7 +190,7 @@ theorem alpineVersionG_no_oob (m : List Text) :
   split
   · simp
   · next hp =>
-    have := admits_lt 2 "return" (by decide) _ (by simpa using hp)
+    have := guard_lt 2 "return" (by decide) _ (by simpa using hp)
     exact idx_bind_ne_oob (by omega) fun _ => by simp
 
 theorem alpineVersionG_unguarded_oob : alpineVersionG [] ([] : List Text) = .oob := by decide
@@ -210,7 +211,7 @@ theorem signatureNameG_no_oob (m : List Text) :
   split
   · simp
   · next hp =>
-    have := admits_ne 3 "return" (by decide) _ (by simpa using hp)
+    have := guard_ne 3 "return" (by decide) _ (by simpa using hp)
     exact idx_bind_ne_oob (by omega) fun _ => idx_bind_ne_oob (by omega) fun _ => by simp
 
 theorem signature_guard_matches_expression (m : List Text)
